@@ -141,9 +141,21 @@ RefFacts(kind, tn, o) ==   \* interfaces / possibleTypes entries: value = kind:n
   {Fact(kind, <<tn, SV(rs[i][Len(rs[i])].name)>>, ChainStr(rs[i])) : i \in {j \in DOMAIN rs : Len(rs[j]) > 0}}
     \cup DupFacts(kind, <<tn>>, MapSeq(rs, LAMBDA r : ChainStr(r)))
 
+\* ---- named exemptions: behaviour the property statement / the GraphQL spec leave open; nothing else is exempt
+\* EX_MetaTypesUnlisted      introspection meta types need not be listed in __schema.types and __type(name: "__Type")
+\*                           may answer null; IF a meta type is answered, its kind must be right (fact metaType)
+\* EX_NullVsEmptyList        fields / interfaces / possibleTypes / enumValues / inputFields: null and [] say the same
+\*                           (LV maps both to the empty sequence)
+\* EX_EmptyDescriptionIsNone description "" = no description (DescFacts emits no fact for either)
+\* EX_BuiltinDescriptions    the description texts of the base schema's scalars / directives are not modelled
+\* EX_DescriptionWhitespace  descriptions are compared modulo white space (normalised by the driver on both sides)
+\* EX_AppliedDirectives      directive applications other than @deprecated / @specifiedBy are not part of introspection
+EX_MetaTypesUnlisted == TRUE
+MetaKind(tn) == IF tn \in {"__TypeKind", "__DirectiveLocation"} THEN "ENUM" ELSE "OBJECT"
 TypeFacts(ft) ==
   LET tn == SV(ft.name) IN
-  IF tn \in MetaTypeNames THEN {} ELSE
+  IF EX_MetaTypesUnlisted /\ tn \in MetaTypeNames
+  THEN (IF SV(ft.kind) = MetaKind(tn) THEN {} ELSE {Fact("metaType", <<tn>>, SV(ft.kind))}) ELSE
   {Fact("type", <<tn>>, SV(ft.kind))} \cup DescFacts(<<tn>>, ft.description)
     \cup (IF ft.specifiedByURL.t = "n" THEN {} ELSE {Fact("specifiedBy", <<tn>>, ft.specifiedByURL.v)})
     \cup UNION {FieldFacts(tn, LV(ft.fields)[i]) : i \in DOMAIN LV(ft.fields)}
@@ -227,9 +239,9 @@ TypeFrom(ft) ==
    members |-> IF SV(ft.kind) = "UNION" THEN MapSeq(LV(ft.possibleTypes), LAMBDA r : SV(r[Len(r)].name)) ELSE <<>>,
    values |-> MapSeq(LV(ft.enumValues), LAMBDA e : [name |-> SV(e.name), desc |-> DescFrom(e.description), dep |-> DepFrom(e), tags |-> <<>>]),
    inputs |-> MapSeq(LV(ft.inputFields), LAMBDA x : IVFrom(x)),
-   url |-> IF ft.specifiedByURL.t = "n" THEN "" ELSE ft.specifiedByURL.v, tags |-> <<>>]
+   url |-> IF ft.specifiedByURL.t = "n" THEN "" ELSE ft.specifiedByURL.v, tags |-> <<>>, ext |-> 0]
 FromIntrospection(I) ==
-  [desc |-> DescFrom(I.description), sd |-> TRUE, query |-> SV(I.queryType),
+  [desc |-> DescFrom(I.description), sd |-> TRUE, stags |-> <<>>, xroots |-> FALSE, query |-> SV(I.queryType),
    mutation |-> IF I.mutationType.t = "n" THEN "" ELSE I.mutationType.v,
    subscription |-> IF I.subscriptionType.t = "n" THEN "" ELSE I.subscriptionType.v,
    types |-> MapSeq(I.types, LAMBDA t : TypeFrom(t)),
